@@ -20,6 +20,9 @@ type SimVal struct {
 	Oper   sdk.ValAddress
 	Power  int64
 	Bonded bool
+	// Unbonding distinguishes the two non-bonded states of x/staking: a validator
+	// that left the active set is Unbonding for the unbonding period, then Unbonded.
+	Unbonding bool
 }
 
 func (s *SimStaking) find(a sdk.ValAddress) *SimVal {
@@ -35,6 +38,8 @@ func (s *SimStaking) mk(v *SimVal) stakingtypes.Validator {
 	st := stakingtypes.Unbonded
 	if v.Bonded {
 		st = stakingtypes.Bonded
+	} else if v.Unbonding {
+		st = stakingtypes.Unbonding
 	}
 	tok := sdk.NewInt(v.Power).Mul(sdk.DefaultPowerReduction)
 	return stakingtypes.Validator{
